@@ -37,7 +37,7 @@ func init() {
 		ruleC01Kind, ruleC01Map, ruleC01List, ruleC01Match, ruleDeepClone, ruleMarkerHelpers("C01.marker"), rulePopListMarker("C01.popmarker"), ruleMergeSourcesPrivate("C01.indep"), ruleSmallContracts("C01.helper", "pophelpers"))
 
 	mk("C02", "Stream layering targets the right documents and treats each independently",
-		"path-effect summaries of MergeDocument (target selection table), ownership analysis of every call into the merge family (sources must be private deep copies), census of the writers of Parser.docs / Document.Parents",
+		"path-effect summaries of MergeDocument (target selection table), ownership analysis of every call into the merge family (sources must be private deep copies), census of the writers of Parser.docs / Document.Parents; constant evaluation of the stream-separator patterns on a battery of lines",
 		"C02 decides the target-selection table ($match: null appends; $match picks matching parent documents, else matching documents anywhere, else error; no $match merges into every document of the parent layers, else appends), that Parser.docs is append-only, that mergeDocs records parent identity, and that no merge source is shared between targets or with live data.",
 		"DESIGN.md §5 C02, §4.3, §4.4",
 		[]string{"semantics of match (C01)", "uniqueness of document IDs at run time"},
@@ -53,7 +53,7 @@ func init() {
 		ruleC03, ruleC03Strip, ruleBklMainInputs, ruleFilepath("C03.path"))
 
 	mk("C04", "Results do not depend on which format (JSON/YAML/TOML) a layer is written in",
-		"census of the dynamic types boxed into `any` by normalisation and evaluation, coverage of decoder-specific numeric types by normalize, must-pass-through (every decoded document goes to normalize and nowhere else), constant arguments of strconv.ParseFloat",
+		"census of the dynamic types boxed into `any` by normalisation and evaluation, coverage of decoder-specific numeric types by normalize, must-pass-through (every decoded document goes to normalize and nowhere else), constant arguments of strconv.ParseFloat, path-effect summary of the YAML scalar table, constant evaluation of the stream-separator patterns on a battery of lines",
 		"C04 decides the necessary condition for format-independent comparisons: only one dynamic Go type per logical kind enters document data, every decoder result is normalised before use, no float narrowing, codec chosen by extension only.",
 		"DESIGN.md §5 C04, §4.7",
 		[]string{"that the three libraries agree on the logical content of equivalent documents (anchors, dotted keys, dates)", "TOML date/time types"},
@@ -61,7 +61,7 @@ func init() {
 		ruleC04Census, ruleC04Canon, ruleC04Fresh, ruleC04Float, ruleC04Normalised("C04.normalised"), ruleC04Ext, ruleC05All, ruleStreamSeparators("C04.sep"), ruleYamlScalars("C04.scalars"))
 
 	mk("C05", "Output round-trips in every format: what bkl writes reads back unchanged",
-		"interprocedural may-be-nil analysis of every map/slice boxed into a tree value (empty containers stay containers, never a typed nil that prints as null); census of the format table (writer and reader reach the same codec package), separator literals matched against the reader's splitter pattern, path-effect summaries of every stream encoder/decoder (no document lost), format-choice flow in cmd/bkl.main and the Output* methods",
+		"interprocedural may-be-nil analysis of every map/slice boxed into a tree value (empty containers stay containers, never a typed nil that prints as null); census of the format table (writer and reader reach the same codec package), separator literals matched against the reader's splitter pattern, path-effect summaries of every stream encoder/decoder (no document lost), format-choice flow in cmd/bkl.main and the Output* methods; constant evaluation of the separator patterns (cut exactly at whole-line separators), YAML scalar table",
 		"C05 decides only the agreement between bkl's own writer and reader halves and the choice of format: same codec per table entry, aliases identical, every separator the writer emits is one the reader splits on, streams encode/decode every document in order, and -f > -o extension > first input's extension.",
 		"DESIGN.md §5 C05",
 		[]string{"decode(encode(x)) = x for look-alike strings, doubles, empty containers (third-party codecs)", "agreement with independent parsers"},
@@ -85,7 +85,7 @@ func init() {
 		ruleOutputGate("C07"), ruleValidate("C07"), ruleMarshalRoute, ruleC07Encode("C07.encode"), ruleC07Required, ruleStripMarker("C07.strip"), ruleMergeSourcesPrivate("C07.indep"), ruleC01List, ruleDroppedErrors)
 
 	mk("C08", "Every invocation terminates with complete output or a reported error",
-		"panic-site audit over SSA (unchecked type assertions, compiler-unproven bounds checks matched to discharge patterns, explicit panics, division, nil-map writes), per-call-site classification of every cycle of a closure-aware call graph (depth-guarded / visited-guarded / structural on acyclic data), dropped-error audit, path summaries of the mains (failed step => stderr + non-zero exit, stdout written last)",
+		"panic-site audit over SSA (unchecked type assertions, compiler-unproven bounds checks matched to discharge patterns, explicit panics, division, nil-map writes), per-call-site classification of every cycle of a closure-aware call graph (depth-guarded / visited-guarded / structural on acyclic data), dropped-error audit, preconditions of indexed library calls (utf8string.At under a RuneCount guard), path summaries of the mains (failed step => stderr + non-zero exit, stdout written last)",
 		"C08 decides: no reachable panic site is unguarded; every recursion cycle is bounded by a depth guard, a visited set or strict structural descent on acyclic data; no error result is dropped; in every CLI a failed step ends in a diagnostic and a non-zero exit before anything is written to stdout, and stdout receives one complete buffer.",
 		"DESIGN.md §5 C08, §4.2, §4.6, §4.8",
 		[]string{"memory exhaustion by breadth of reference expansion (the guard bounds depth only)", "termination and crash freedom of encoding/json, yaml.v3, go-toml on arbitrary bytes", "nil-pointer dereferences other than those excluded by the error-check discipline"},
@@ -101,7 +101,7 @@ func init() {
 		ruleMapRanges, ruleSortedMap, ruleGlobals, rulePools, ruleNondetSources, ruleMergeSourcesPrivate("C09.alias"), ruleQueryMethods("C09.query"), ruleMemoised("C09.memo"))
 
 	mk("C10", "$merge and $replace behave as if the referenced subtree were written inline",
-		"path-effect summaries of Document.Process (phase order), the process1 family (dispatch), get/getPath/getCross/getCrossDoc (lookup tables), matchMap (placeholder rule); ownership analysis: results of get never reach a mutating position",
+		"path-effect summaries of Document.Process (phase order), the process1 family (dispatch), get/getPath/getCross/getCrossDoc (lookup tables), matchMap (placeholder rule); ownership analysis: results of get never reach a mutating position; the evaluated document is an element of the list its references are resolved against; mutation summaries of the pop/has/get helpers; dropped-error audit",
 		"C10 decides phase order (references, then document-level $repeat, then the rest), the reference dispatch for maps, lists and strings ($merge layers the referenced value onto the local content as source, $replace discards local keys), the lookup tables incl. dangling and ambiguous references being errors, and that the referenced subtree is never written.",
 		"DESIGN.md §5 C10",
 		[]string{"keys containing dots", "interaction of references with $output: false templates beyond the phase order"},
@@ -109,7 +109,7 @@ func init() {
 		ruleC10Phase, ruleC10Dispatch, ruleC10Lookup, ruleC10ListRef, ruleC10Universe, ruleReferencesReadOnly, ruleC01Match, ruleSmallContracts("C10.helper", "matchdoc", "getcopy", "pophelpers"), ruleDroppedErrors)
 
 	mk("C11", "$output selects exactly the marked subtrees and hides exactly the excluded ones",
-		"path-effect summaries of findOutputs, filterOutput and outputDocument against the selection / hiding tables",
+		"path-effect summaries of findOutputs, filterOutput and outputDocument against the selection / hiding tables; contracts of the marker helpers (hasMapBoolValue, hasListMapBoolValue, popListMapBoolValue); YAML scalar table (boolean spellings)",
 		"C11 decides the selection table (marked maps first, then their children's selections in sorted key order; marked lists after their children's), marker removal, the root fallback when nothing is selected, the hiding table ($output: false yields nil, nil children dropped) and that hiding precedes validation.",
 		"DESIGN.md §5 C11",
 		[]string{"interaction with references copied out of hidden trees"},
@@ -181,7 +181,7 @@ func init() {
 		ruleOutputPure, ruleCloneContract("C19.clone"), ruleDeepClone, ruleFieldWriterCensus("C19.docs"), ruleQueryMethods("C19.query"), ruleMapRanges, ruleSortedMap)
 
 	mk("C20", "bklb/kubectl-bkl rewrite only file arguments; all else passes through",
-		"path-effect summaries of wrapper.WrapOrDie and cmd/bklb.main: argv construction, the only store into the argument copy, error paths ending before exec",
+		"path-effect summaries of wrapper.WrapOrDie and cmd/bklb.main: argv construction, the only store into the argument copy, error paths ending before exec; contracts of ext / findFile (every table extension probed) / FileMatch",
 		"C20 decides that argv is [cmd] + a copy of os.Args[1:] in order with only file arguments replaced in place by the temp file's name, that a non-bkl argument is skipped without effect, that every evaluation error is fatal before exec, that format and temp-name flow from FileMatch(arg), and how the program name is derived.",
 		"DESIGN.md §5 C20",
 		[]string{"what the exec'd program observes (OS)"},
